@@ -52,6 +52,8 @@ func main() {
 		h.GenC13x(rng, thorough, emit)
 	case "c17conv":
 		h.GenC17conv(rng, thorough, emit)
+	case "trip":
+		h.GenTrip(rng, thorough, emit)
 	case "life":
 		h.GenLife(rng, thorough, emit)
 	case "lmtp":
